@@ -134,7 +134,65 @@ def _iface_cases(ctx):
     for m in IFACE_MODELS:
         out.append({"kind": "mesh", "model": m})
         out.append({"kind": "sv", "model": m, "depth": 2 if ctx.quick else 3})
+    # same-named parameters whose hard limits differ between models: both orders in ONE process
+    from sasmodels import core
+    sig = {}
+    for m in core.list_models():
+        P = core.load_model_info(m).parameters
+        for p in P.call_parameters:
+            if p.name in P.pd_1d:
+                sig.setdefault(p.name, {}).setdefault((float(p.limits[0]), float(p.limits[1])), m)
+    for name, by_limits in sorted(sig.items()):
+        lims = sorted(by_limits)
+        for i in range(len(lims)):
+            for j in range(i + 1, len(lims)):
+                out.append({"kind": "cross", "name": name, "models": [by_limits[lims[i]], by_limits[lims[j]]]})
     return out
+
+
+def _run_cross(case, ctx):
+    """one parameter name, two models with different hard limits, identical settings, both orders in one process"""
+    from sasmodels import core
+    from sasmodels.direct_model import get_mesh
+    r = R()
+    name = case["name"]
+    infos = [core.load_model_info(m) for m in case["models"]]
+    pars = [[p for p in i.parameters.call_parameters if p.name == name][0] for i in infos]
+    (la, ua), (lb, ub) = pars[0].limits, pars[1].limits
+    settings = []
+    if la != lb and np.isfinite(max(la, lb)):
+        hi_lo = max(la, lb)
+        low = max(min(la, lb), hi_lo - 1.0)          # a grid point that only the wider limit admits
+        v = hi_lo + 1.0
+        settings.append((v, 1.0 - low / v))
+    if ua != ub and np.isfinite(min(ua, ub)):
+        lo_hi = min(ua, ub)
+        high = min(max(ua, ub), lo_hi + 1.0)
+        v = lo_hi - 1.0 if lo_hi - 1.0 > 0 else lo_hi / 2.0
+        if v > 0:
+            settings.append((v, high / v - 1.0))
+    for v, w in settings:
+        for order in ((0, 1), (1, 0), (0, 1, 0)):
+            for k in order:
+                info, par = infos[k], pars[k]
+                kw = {name: v, name + "_pd": w, name + "_pd_n": 5, name + "_pd_type": "uniform"}
+                desc = "get_mesh(%s, %r) after %s" % (case["models"][k], kw, [case["models"][o] for o in order[:order.index(k)]] or "nothing")
+                try:
+                    mesh = get_mesh(info, kw, dim="1d")
+                except Exception as exc:  # noqa
+                    r.fail("%s raised %r" % (desc, exc), {"interface": "get_mesh", "clause": "raises"})
+                    continue
+                got = [t for q, t in zip(info.parameters.call_parameters, mesh) if q.name == name][0]
+                ex, ew = _ref_dist(par, {"type": "uniform", "npts": 5, "width": w}, v)
+                if not _same(got[1], ex) or not _same(got[2], ew):
+                    r.fail("%s: %s has limits %r but got values %s weights %s (expected %s %s): the distribution of another "
+                           "model's same-named parameter leaked" % (desc, name, par.limits, np.asarray(got[1]), np.asarray(got[2]), ex, ew),
+                           {"interface": "get_mesh", "clause": "cross-model"})
+                else:
+                    r.ok(nt=True, outcome="cross", branches=["iface-cross"])
+    if not settings:
+        r.ok(outcome="cross-skip")
+    return r
 
 
 def _ref_dist(par, spec, value):
@@ -267,6 +325,8 @@ def run_case(case, ctx):
         return _run_mesh(case, ctx)
     if case.get("kind") == "sv":
         return _run_sv(case, ctx)
+    if case.get("kind") == "cross":
+        return _run_cross(case, ctx)
     from sasmodels import weights
     t, c, pd, mode = case["type"], case["centre"], case["pd"], case["mode"]
     relative = mode == "relative"
@@ -408,3 +468,4 @@ def finish(ctx, report):
     report.require("iface-mesh", 100, "direct_model.get_mesh per-parameter distributions")
     report.require("iface-orientation", 20, "absolute-width (orientation) parameters through get_mesh")
     report.require("iface-sasview", 100, "SasView-style setParam sequences")
+    report.require("iface-cross", 4, "same-named parameters with different limits in two models")
